@@ -1,5 +1,6 @@
 import Driver.Pure
 import Driver.Flow
+import Driver.SWorld
 /-!
   Model driver: one command per input line, one output line per command.
   `lake build driver && .lake/build/bin/driver < ops.txt`
@@ -9,6 +10,7 @@ open Driver
 structure DState where
   pure : PureState := {}
   flow : FlowState := {}
+  sw : SWState := {}
 
 def stepLine (st : DState) (line : String) : DState × String :=
   match (line.trimAscii.toString.splitOn " ").filter (· ≠ "") with
@@ -19,7 +21,10 @@ def stepLine (st : DState) (line : String) : DState × String :=
     | none =>
       match flowCmd st.flow cmd args with
       | some (f, out) => ({ st with flow := f }, out)
-      | none => (st, "bad-op")
+      | none =>
+        match sworldCmd st.pure.services st.sw cmd args with
+        | some (w, out) => ({ st with sw := w }, out)
+        | none => (st, "bad-op")
 
 partial def loop (h : IO.FS.Stream) (out : IO.FS.Stream) (st : DState) : IO Unit := do
   let line ← h.getLine
